@@ -5,6 +5,7 @@ dynamic tags; tag-only rules that are more specific than the categorising ones) 
 every sequence of <= K legacy CSV rows with pipe-separated tags; each file x 96 transactions, through
 MerchantEngine.match and the get_all_rules/normalize_merchant path.
 """
+import ast
 import functools
 import itertools
 import re
@@ -14,14 +15,14 @@ from mc.checks import rules_common as R
 
 PROPERTY = "C02"
 LEVEL = "exploration"
-RULE = ("cases = every ordered sequence of 1..K distinct blocks (K=3 quick, 4 thorough) over 19 .rules blocks "
+RULE = ("cases = every ordered sequence of 1..K distinct blocks (K=3 quick, 4 thorough) over 21 .rules blocks "
         "(6 categorising with static / mixed-case / {field.x} / {source} / {extract()} tags, 7 tag-only incl. one sharing its match text with a categorising rule at low priority, one with case-significant dynamic tag expressions, one more specific than "
-        "every categorising rule, one with an unevaluable {field.nope} and an empty {} tag; transfer / investment tags from separate rules; a := binder and a dynamic tag reading that name) x 2 rule modes, plus every sequence of 1..K "
+        "every categorising rule, one with an unevaluable {field.nope} and an empty {} tag; transfer / investment tags from separate rules; a := binder and a dynamic tag reading that name; two rules binding one let name to different constants, both tagged {ref}) x 2 rule modes, plus every sequence of 1..K "
         "rows over 7 legacy CSV rows with a|B and dynamic tags; each file on 120 transactions via engine.match, normalize_merchant and (tags read back) analyze_transactions. "
         "non-trivial = file where some transaction is matched by >=2 tag-bearing rules or by a tag-only rule; files distinct by construction")
 ASSUMPTIONS = ["truth of a .rules condition comes from the real evaluator on the one-rule file (C04 judges meaning)",
                "value of a {expression} tag is taken from evaluate_transaction on that expression alone; dropped when falsy, blank or an expression error",
-               "dynamic tags in the alphabet do not reference let/global variables; list-valued dynamic tags are outside the documented forms"]
+               "dynamic tags in the alphabet reference no global variable and only constant let bindings of their own rule; list-valued dynamic tags are outside the documented forms"]
 
 RULES = [
     {"name": "Netflix", "match": 'contains("NETFLIX")', "category": "Subs", "subcategory": "Streaming", "tags": "a"},
@@ -53,6 +54,9 @@ RULES = [
     # := inside a condition binds a name for that expression only: a later rule's {wn} tag cannot see it
     {"name": "Walrus", "match": '(wn := extract("(\\d+)")) != ""', "category": "WalrusCat", "tags": "w"},
     {"name": "TagWn", "match": 'contains("NETFLIX") or contains("UBER")', "tags": "{wn}, wtag"},
+    # two rules bind the SAME let name to different constants and carry the same tag text {ref}: each contributes its own value
+    {"name": "LetRefA", "let": [("ref", '"acme"')], "match": 'contains("NETFLIX") or contains("UBER")', "tags": "{ref}, alpha"},
+    {"name": "LetRefB", "let": [("ref", '"Billing"')], "match": 'contains("NETFLIX") or contains("TRIP")', "category": "Bills", "tags": "{ref}"},
     {"name": "TagBrace", "match": 'contains("NETFLIX") or contains("TRIP")', "tags": '{extract("(\\d{3})")}, {extract("TRIP (\\d{2})")}, {extract(field.memo, "REF (\\d{1,3})")}'},
 ]
 CSVROWS = [
@@ -112,6 +116,11 @@ def resolved_tags(i):
             if tag.startswith("{") and tag.endswith("}"):
                 e = tag[1:-1].strip()
                 if not e:
+                    continue
+                lets = dict(RULES[i].get("let", []))
+                if e in lets:
+                    # a tag that names one of the rule's own let bindings (constants in this alphabet): its value, known without tally
+                    s.add(str(ast.literal_eval(lets[e])).strip().lower())
                     continue
                 try:
                     v = evaluate_transaction(e, R.txn_dict(t))
